@@ -1779,19 +1779,22 @@ coap_io_process_with_fds_lkd(coap_context_t *ctx, uint32_t timeout_ms,
       break;
     }
 
+    coap_lock_lock(ctx, return -1);
 #if COAP_THREAD_SAFE
-    /* Need to refresh what is available to read / write etc. */
+    /*
+     * Need to refresh what is available to read / write etc. now that the
+     * lock is held again: a socket reported by the unlocked epoll_wait()
+     * above may have been freed by another thread in the meantime.
+     */
     nfds = epoll_wait(ctx->epfd, events, COAP_MAX_EPOLL_EVENTS, 0);
     if (nfds < 0) {
       if (errno != EINTR) {
         coap_log_err("epoll_wait: unexpected error: %s (%d)\n",
                      coap_socket_strerror(), nfds);
       }
-      coap_lock_lock(ctx, return -1);
       break;
     }
 #endif /* COAP_THREAD_SAFE */
-    coap_lock_lock(ctx, return -1);
 
     coap_io_do_epoll_lkd(ctx, events, nfds);
 
